@@ -110,7 +110,7 @@ def _finder(which, integer=None):
             x0, y0, w0, h0 = _orig_frame(d, tr)
             d = d.copy()
             yy, xx = np.mgrid[:d.shape[0], :d.shape[1]]
-            for (sx, sy) in ((21, 5), (5, 12), (w0 - 6, 30), (30, h0 - 6)):
+            for (sx, sy) in ((21, 3.2), (3.2, 12), (w0 - 4.2, 30), (30, h0 - 4.2)):      # kernel box just inside the frame, its convolution support crossing the edge
                 d += 150.0 * np.exp(-0.5 * (((xx - x0 - sx) / 1.5) ** 2 + ((yy - y0 - sy) / 1.5) ** 2))
             d = np.rint(np.clip(d + 20.0, 0, None)).astype(integer)
             inside = np.zeros(d.shape, dtype=bool); inside[y0:y0 + h0, x0:x0 + w0] = True
@@ -122,6 +122,11 @@ def _finder(which, integer=None):
         else:
             y, x = np.mgrid[:7, :7]
             t = StarFinder(8.0, np.exp(-0.5 * (((x - 3) / 1.5) ** 2 + ((y - 3) / 1.5) ** 2)))(d, mask=m)
+        if integer is not None:
+            # the count pedestal ends at the frame edge: detections whose kernel box crosses that edge (the step itself, among others) see
+            # zero fill in the original frame and convolved values in the embedding - only rows at least 3 px inside the frame (kernel box inside it) are compared
+            xc_, yc_ = np.asarray(t['xcentroid']), np.asarray(t['ycentroid'])
+            t = t[(xc_ - x0 >= 3) & (xc_ - x0 <= w0 - 4) & (yc_ - y0 >= 3) & (yc_ - y0 <= h0 - 4)]
         o = np.lexsort((np.round(np.asarray(t['xcentroid']), 3), np.round(np.asarray(t['ycentroid']), 3)))
         cols = [col('xcentroid', 'x', np.asarray(t['xcentroid'])[o], tol=3), col('ycentroid', 'y', np.asarray(t['ycentroid'])[o], tol=3)]
         for n in ('flux', 'peak', 'sharpness', 'roundness1', 'roundness2', 'roundness', 'fwhm', 'max_value'):
